@@ -13,7 +13,7 @@ from rp2.plugin.country.jp import JP as JPC
 from rp2.localization import set_generation_language
 set_generation_language("en")
 SCR = os.environ["RP2_SCRATCH"]
-LINK = re.compile(r'^=HYPERLINK\("#(.+)\.a(\d+):z(\d+)"; (.*)\)$'); REF = re.compile(r"^='(.+)'\.I(\d+)$")
+LINK = re.compile(r'^=HYPERLINK\("#(.+)\.a(\d+):z(\d+)"; (.*)\)$'); REF = re.compile(r"^='(.+)'\.I(\d+)$"); REFANY = re.compile(r"^='(.+)'\.([A-Z]+)(\d+)$")
 def hexs(s): return s.encode().hex()
 def fl(x): return float(F(x))
 def unlink(v):
@@ -173,6 +173,16 @@ def extract_open(path, assets):
 def extract_jp(path):
     L = []
     for name, rows in read_ods(path):
+        ms = re.match(r"^(\d{4})_Summary$", name)
+        if ms:
+            # a year's summary sheet: one line per asset from row 8, the asset's name in column A and references to the asset-year sheet
+            for i, r in enumerate(rows[7:]):
+                refs = [REFANY.match(c[1]) for c in r if c and c[0] == "formula" and REFANY.match(c[1])]
+                if r and r[0] and r[0][0] == "str" and r[0][1] and refs:
+                    ri = [m_ for m_ in refs if m_.group(2) == "I"]
+                    L.append(["JSUM", int(ms.group(1)), 8 + i, r[0][1], refs[0].group(1), min(int(m_.group(3)) for m_ in ri) if ri else None,
+                              len({m_.group(1) for m_ in refs}) == 1])
+            continue
         if not re.match(r"^.+_\d{4}$", name): continue
         refs = [REF.match(c[1]) for r in rows for c in r if c and c[0] == "formula" and REF.match(c[1])]; close = None
         for i, r in enumerate(rows):
@@ -229,6 +239,7 @@ def parse_model(case, block):
         elif t[0] == "TB": L.append(["TB", t[1], int(t[2]), int(t[3]), fl(t[4]), fl(t[5]), fl(t[6]), fl(t[7])])
         elif t[0] == "TT": L.append(["TT", t[1], int(t[2]), t[3], fl(t[4])])
         elif t[0] == "TP": L.append(["TP", t[1], int(t[2]), fl(t[3])])
+        elif t[0] == "JSUM": L.append(["JSUM", int(t[1]), int(t[2]), t[3], t[4], int(t[5]), True])
         elif t[0] == "TD": L.append(["TD", t[1], int(t[2]), int(t[3]), n(t[4]), fl(t[5]), fl(t[6]), fl(t[7]), t[8] == "1", [f"{t[1]} In-Out", int(t[9])] if t[9] != "-" else None, [f"{t[1]} In-Out", int(t[10])] if t[10] != "-" else None, t[11], t[12], fl(t[13]) if len(t) > 13 else None, fl(t[14]) if len(t) > 14 else None])
         elif t[0] == "SU": L.append(["SU", int(t[1]), t[2], int(t[3]), t[4], t[5] == "1", [f"{t[2]} Tax", int(t[6])] if t[6] != "-" else None])
         elif t[0] == "TR": L.append(["TR", t[1].replace("_", " "), int(t[2]), t[3], fl(t[4]), fl(t[5]), q(t[6]), fl(t[7]), t[8] == "1", dd(t[9]), dd(t[10]), t[11], t[12]])
@@ -246,7 +257,7 @@ def run_model(cases):
     return [parse_model(c, b) for c, b in zip(cases, out)]
 def pub(r): return {k: v for k, v in r.items() if not k.startswith("_")}
 KIND = {"IOIN": "inout", "IOOUT": "inout", "IOX": "inout", "TY": "taxsheet", "TB": "taxsheet", "TT": "taxsheet", "TP": "taxsheet", "TD": "detail", "SU": "summary",
-        "TR": "taxreport", "OA": "open", "OE": "open", "OT": "open", "JS": "jp", "JR": "jp"}
+        "TR": "taxreport", "OA": "open", "OE": "open", "OT": "open", "JS": "jp", "JR": "jp", "JSUM": "jp"}
 def strip_links(r):
     if r[0] == "TD": return r[:9] + r[11:]          # everything but the two link targets (compared under "links")
     if r[0] == "SU": return r[:6]
@@ -505,6 +516,21 @@ def oracle_c20(case, res, guard=True):
     if res["status"] != "ok" or case["which"] != "jp": return None
     if guard and not dates_ok(case): return None         # finding F6: a to-date with mixed UTC offsets
     js = {r[1]: r for r in res["rows"] if r[0] == "JS"}; exp = set()
+    # summary sheets: one line per asset-year sheet, in the sheet of its year, naming the asset and pointing at that sheet's closing cells;
+    # the lines of a year on consecutive rows from 8
+    jsum = [r for r in res["rows"] if r[0] == "JSUM"]
+    for nm, r_ in js.items():
+        a_, y_ = nm.rsplit("_", 1)
+        mine = [l for l in jsum if l[4] == nm]
+        if len(mine) != 1: return f"{nm}: {len(mine)} lines in the summary sheets refer to this sheet (one expected, in {y_}_Summary)"
+        l = mine[0]
+        if l[1] != int(y_) or l[3] != a_ or l[5] != r_[3] or l[6] is not True:
+            return f"{nm}: its summary line is in {l[1]}_Summary for asset {l[3]!r} and refers to row {l[5]} (closing cells of the sheet: row {r_[3]})"
+    for l in jsum:
+        if l[4] not in js: return f"{l[1]}_Summary row {l[2]}: refers to sheet {l[4]!r}, which the report does not have"
+    for y_ in {l[1] for l in jsum}:
+        rws = sorted(l[2] for l in jsum if l[1] == y_)
+        if rws != list(range(8, 8 + len(rws))): return f"{y_}_Summary: asset lines on rows {rws}"
     tdw = date.fromisoformat(case["to"]) if case["to"] else date.max
     close = lambda x, y: (x is None and y is None) or (x is not None and y is not None and abs(x - y) <= 1e-9 * max(1.0, abs(x), abs(y)))
     for a, rows in case["assets"].items():
